@@ -243,12 +243,45 @@ def run(model: RepoModel, rep, tier: str):
 TH = "basics/type_hierarchy.py"
 
 
+def check_base_order(model: RepoModel, rep, RID: str):
+    """the bases of a class are visited in the order the class statement lists them (the order the edges were added to the type graph):
+    re-ordering them (sorted by id = by position of the class definitions in the file, or through a set) makes the method that wins
+    among several bases depend on where unrelated classes are defined"""
+    th = model.module(TH).classes.get("TypeHierarchy")
+    if th is None:
+        raise AnalysisError("TypeHierarchy vanished")
+    n = 0
+    for f in th.methods.values():
+        for L in walk_no_nested(f.node):
+            if not isinstance(L, ast.For):
+                continue
+            src = L.iter
+            if isinstance(src, ast.Name):
+                ds = [a.value for a in walk_no_nested(f.node) if isinstance(a, ast.Assign) and isinstance(a.targets[0], ast.Name) and a.targets[0].id == src.id]
+                src = ds[0] if len(ds) == 1 else src
+            if "graph_successors" not in norm(src) and "successors" not in norm(src):
+                continue
+            n += 1
+            key = f"{TH}::{f.qualname}::bases are visited in class-statement order"
+            reorder = next((x for x in ast.walk(src) if isinstance(x, ast.Call) and (call_name(x) or "") in ("sorted", "set", "frozenset", "reversed")), None)
+            if reorder is not None:
+                rep.violation(RID, key, TH, L.lineno,
+                              f"{f.qualname} walks the bases as `{norm(src)[:80]}`: `{call_name(reorder)}` replaces the order of the class statement by the order of "
+                              f"the class ids, i.e. by where the base classes are defined in the file -- swapping two unrelated top-level class "
+                              f"definitions changes which base's method (constructor) a call resolves to")
+            else:
+                rep.holds(RID, key, TH, L.lineno, f"`{norm(src)[:80]}` (edge insertion order)")
+    if not n:
+        raise AnalysisError("TypeHierarchy no longer walks graph successors to merge the bases' methods")
+
+
 def _r7_inherited_methods(model: RepoModel, rep):
     """Calls of inherited methods are resolved through the per-class method table, which TypeHierarchy builds as own methods + the
     tables of the parents.  Decided: the parents' tables are complete when they are read, every parent contributes, every class gets
     a table."""
     rep.rule("C07.R7", "inherited methods are callable: a class's method table is its own methods plus its parents' COMPLETE tables (a parent "
                        "is built before its table is read), every parent contributes, and every class declaration of the type graph gets a table", 4)
+    check_base_order(model, rep, "C07.R7")
     from ..generic import check_accumulators
     from ..generic2 import check_ensure_before_get
     th = model.module(TH).classes.get("TypeHierarchy")
